@@ -28,6 +28,8 @@ def scenarios(tier):
     combos = [("sparse", "EF", 1), ("sparse", "RK2", 2), ("dense", "EF", 1)] if q else [(l, a, pp) for l in ("sparse", "dense") for a in ("EF", "RK2", "RK4") for pp in (1, 2)]
     for layout, adv, per in combos:
         out.append(dict(name=f"others-{layout}-{adv}-p{per}", fn="others", params=dict(layout=layout, adv=adv, per=per, nsteps=3 if q else 4), cost=10))
+    # vertical advection switched on (the vertical velocity is one more per-particle forcing array)
+    out.append(dict(name="others-sparse-EF-p1-vertadv", fn="others", params=dict(layout="sparse", adv="EF", per=1, nsteps=2 if q else 3, vertadv=True, rbmax=0 if q else 1), cost=12))
     if not q:
         out.append(dict(name="reorder-sparse-EF", fn="reorder", params=dict(layout="sparse", adv="EF", nsteps=3), cost=10))
         out.append(dict(name="reorder-dense-RK2", fn="reorder", params=dict(layout="dense", adv="RK2", nsteps=3), cost=10))
@@ -45,11 +47,13 @@ def _files(W, tmp, t_first, uvals):
     u = [[[[uvals[(f, k)] for i in range(L - 1)] for j in range(M)] for k in range(N)] for f in range(len(frames))]
     v = [[[[0 for i in range(L)] for j in range(M - 1)] for k in range(N)] for f in range(len(frames))]
     temp = [[[[uvals[(f, k)] * 10 for i in range(L)] for j in range(M)] for k in range(N)] for f in range(len(frames))]
-    fs = romsfile.forcing_vars([t_first + m * DT - romsfile.REFSEC for m in frames], u, v, extra=dict(temp=temp))
+    # a weak vertical velocity field (used by the scenarios with vertical advection only)
+    wf = [[[[W.frac((f + 1) * (k + 1), 1000) for i in range(L)] for j in range(M)] for k in range(N)] for f in range(len(frames))]
+    fs = romsfile.forcing_vars([t_first + m * DT - romsfile.REFSEC for m in frames], u, v, extra=dict(temp=temp, w=wf))
     romsfile.write(W, tmp / "ocean.nc", gs, fs)
 
 
-def _run(W, tmp, sub, rows, t0, nsteps, uvals, layout="sparse", adv="EF", per=1, kill=None):
+def _run(W, tmp, sub, rows, t0, nsteps, uvals, layout="sparse", adv="EF", per=1, kill=None, vertadv=False):
     sub.mkdir(exist_ok=True)
     W.table(sub / "r.rls", ["release_time", "X", "Y", "Z"], rows)
     ivars = dict(pid=ovar("i4"), X=ovar("f8"), Y=ovar("f8"), Z=ovar("f8"), temp=ovar("f8"))
@@ -59,6 +63,11 @@ def _run(W, tmp, sub, rows, t0, nsteps, uvals, layout="sparse", adv="EF", per=1,
                       output=dict(filename=str(sub / "out.nc"), output_period=per * DT, instance_variables=ivars, layout=layout))
     cfg["grid"] = dict(module="ladim.ROMS", filename=str(tmp / "ocean.nc"))
     cfg["forcing"] = dict(module="ladim.ROMS", filename=str(tmp / "ocean.nc"), extra_forcing=["temp"])
+    if vertadv:
+        cfg["forcing"]["extra_forcing"] = ["temp", "w"]
+        cfg["state"]["instance_variables"]["w"] = float
+        cfg["state"]["default_values"]["w"] = 0
+        cfg["tracker"]["vertical_advection"] = True
     run_main(W, cfg)
     return W.nc_read(sub / "out.nc")
 
@@ -98,13 +107,13 @@ def others(W, p):
     _files(W, tmp, T0, uv)
     xa, xb = W.frac(11, 4), W.frac(13, 5)  # horizontal start positions concrete (rounding forks are C02/C09's subject); depths symbolic
     za, zb = W.real("za", 0, 99), W.real("zb", 0, 99)
-    rb = W.idx(W.int("release_b", 0, 2))  # the observed particle may be released with or (one or two steps, on and off a forcing frame) after the other one: alone, it then enters an empty model
+    rb = W.idx(W.int("release_b", 0, p.get("rbmax", 2)))  # the observed particle may be released with or (one or two steps, on and off a forcing frame) after the other one: alone, it then enters an empty model
     kstep = W.idx(W.int("killstep", 0, nsteps - 1))
     kflag = W.bool("killflag")
     rowA = [W.dt(T0), xa, 3, za]  # the "other" particle (pid 0): may be killed
     rowB = [W.dt(T0 + rb * DT), xb, W.frac(5, 2), zb]  # the observed particle
-    both = _run(W, tmp, tmp / "both", [rowA, rowB], T0, nsteps, uv, layout, p["adv"], p["per"], kill={kstep: {0: kflag}})
-    alone = _run(W, tmp, tmp / "alone", [rowB], T0, nsteps, uv, layout, p["adv"], p["per"])
+    both = _run(W, tmp, tmp / "both", [rowA, rowB], T0, nsteps, uv, layout, p["adv"], p["per"], kill={kstep: {0: kflag}}, vertadv=p.get("vertadv", False))
+    alone = _run(W, tmp, tmp / "alone", [rowB], T0, nsteps, uv, layout, p["adv"], p["per"], vertadv=p.get("vertadv", False))
     tb = _tracks(W, both, layout, 2).get(1, [])
     ta = _tracks(W, alone, layout, 1).get(0, [])
     conds = [len(tb) == len(ta)]
